@@ -169,6 +169,38 @@ Example C16_shape_example :
      (VUpdate, "8", [("app", "b"); ("new", "n")], JObj [("replicas", JInt 2)], JObj [("phase", JStr "New")])].
 Proof. vm_compute. reflexivity. Qed.
 
+(* a null status in the response leaves the "status" key exactly as it was: same value, and absent stays
+   absent (regression: an absent status used to be sent as an explicit null, which a resource without
+   status subresource stored and every later sync then failed to read) *)
+Theorem C16_null_status_keeps_status_key :
+  forall (c : dcfg) (parent st : json) (r : dresp) (rv : option string) (strip : bool),
+    status_map parent = Some st ->
+    is_null (dr_status r) = true ->
+    alookup "status" (obj_map (target_body c parent (plan_target parent st r) rv strip)) =
+    alookup "status" (obj_map parent).
+Proof. exact (@C16Proofs.C16_null_status_keeps_status_key). Qed.
+Print Assumptions C16_null_status_keeps_status_key.
+
+(* a cluster-scoped target without status; the response changes a label and says status: null *)
+Definition ex_widget : json :=
+  JObj [("apiVersion", JStr "ctl.example.com/v1"); ("kind", JStr "ClusterWidget");
+        ("metadata", JObj [("name", JStr "t1"); ("uid", JStr "uid-t1"); ("resourceVersion", JStr "7");
+                           ("labels", JObj [("app", JStr "a")])]);
+        ("spec", JObj [("size", JInt 3)])].
+Definition ex_widget_rule : drule :=
+  mkDRule "ctl.example.com/v1" "ClusterWidget" "clusterwidgets" false false sel_everything sel_everything.
+Definition ex_label_only : dresp := mkDR [("deco", Some "1")] [] JNull [] JNull false.
+
+Example C16_null_status_example :
+  status_map ex_widget = Some JNull /\
+  let tr := rev (fst (run (update_target ex_cfg ex_widget_rule ex_widget ex_label_only
+                                          (plan_target ex_widget JNull ex_label_only)) ex_env [])) in
+  map (fun ca => match fst ca with
+                 | CApi q => (q_verb q, get_labels (q_body q), alookup "status" (obj_map (q_body q)))
+                 | _ => (VGet, [], None) end) tr
+  = [(VUpdate, [("app", "a"); ("deco", "1")], None)].
+Proof. vm_compute. split; reflexivity. Qed.
+
 (* ---- 5. no request when the response asks for nothing ---- *)
 Theorem C16_no_request_when_unchanged :
   forall (c : dcfg) (rl : drule) (parent st : json) (r : dresp),
